@@ -491,6 +491,13 @@ def check_params(model, rep, sx: SX):
                                     for e in o.state.effects) for o in done)
         rep.decide(ok, 'C19.params', 'DCMotor.pwm[setter]', 'the duty-cycle setter can store a value outside [-1, 1]',
                    loc=st.loc)
+        # ... and a rejected value must not have been stored on the way to the raise (store first, validate afterwards leaves the
+        # motor with the rejected duty cycle when the caller handles the error)
+        fld_s = sx.trivial_getter_field('DCMotor', 'pwm') or '_DCMotor__pwm'
+        dirty = [o for o in outs if o.kind == 'raise' and any(e[0] == 'store' and e[1] == 'self' for e in o.state.effects)]
+        rep.decide(not dirty, 'C19.params', 'DCMotor.pwm[setter]:raising-paths',
+                   f'a path that raises {dirty[0].value if dirty else ""} has already stored the rejected value into the motor '
+                   f'(the range check comes after the store)', loc=f'{st.module}:{dirty[0].loc if dirty else st.node.lineno}')
     # ... and the constructor may start the duty cycle only from a constant inside the range or through the validating setter: a
     # constructor parameter stored straight into the private field is an unvalidated way in
     init = model.member('DCMotor', '__init__')
